@@ -669,6 +669,53 @@ func gov15Case(w *vlog.W, a *wargs, id int, rng *rand.Rand, opts harness.Options
 				}
 			}
 			actDesc = "vote"
+		case x < 95 && len(g.final) > 0 && rng.Intn(3) == 0: // the sponsor withdraws a proposal that is concluded already
+			// preferably one whose object is under another, still open proposal: the object is in a transitional
+			// status then, which is when a second "rejected" effect would be accepted by its manager
+			var fin, pref []string
+			for pid := range g.final {
+				fin = append(fin, pid)
+			}
+			sort.Strings(fin)
+			for _, pid := range fin {
+				for _, o := range g.open {
+					if g.objOf[o] != "" && g.objOf[o] == g.objOf[pid] {
+						pref = append(pref, pid)
+					}
+				}
+			}
+			pid := fin[rng.Intn(len(fin))]
+			if len(pref) > 0 && rng.Intn(4) != 0 {
+				pid = pref[rng.Intn(len(pref))]
+				w.Count("withdrawals_of_concluded_proposals_with_another_open_on_the_object", 1)
+			}
+			sponsor := strings.SplitN(pid, "-", 2)[0]
+			var k *harness.Key
+			for _, c := range []*harness.Key{harness.ChainAdmin(harness.ChainA), harness.ChainAdmin(harness.ChainB), harness.ChainAdmin(harness.ChainC), harness.AdminKey(0)} {
+				if c.Addr.String() == sponsor {
+					k = c
+				}
+			}
+			if k == nil {
+				k = outsider
+			}
+			obj := g.objOf[pid]
+			stBefore := ""
+			if typ, ok := objTyp[obj]; ok {
+				stBefore = g.objStatus(typ, obj)
+			}
+			res, err := world.Exec(world.BVM(k, harness.AddrGov, "WithdrawProposal", pb.String(pid), pb.String("reason")))
+			w.Count("withdrawals_of_concluded_proposals", 1)
+			if err == nil {
+				g.hist = append(g.hist, fmt.Sprintf("h%d withdraw of the concluded %s by %s: %v", res.Height, pid, k.Addr.String()[:8], res.Receipts[0].Status))
+				if typ, ok := objTyp[obj]; ok {
+					if st := g.objStatus(typ, obj); st != stBefore {
+						g.viol("concluded-proposal-took-effect-again", fmt.Sprintf("withdrawing the concluded proposal %s moved its object %s from %s to %s", pid, obj, stBefore, st))
+						objStatus[obj] = st
+					}
+				}
+			}
+			actDesc = "withdraw-concluded"
 		case x < 95 && len(g.open) > 0: // withdraw by sponsor / by someone else
 			pid := g.open[rng.Intn(len(g.open))]
 			sponsor := strings.SplitN(pid, "-", 2)[0]
